@@ -119,11 +119,16 @@ def run_group(repo, unit, g, variant_defs=(), tag=''):
         return res
     # 2a. link the CPROVER C library first (goto-instrument --dfcc crashes in its own library linking step on
     #     some pipe translation units: invariant 'symbol expressions with source locations')
-    cmd = ['goto-instrument', '--add-library', 'a.gb', 'a1.gb']
-    rc, so, se, dt = sh(cmd, 300, cwd=wd)
-    if rc != 0:
-        res['detail'] = 'goto-instrument --add-library failed: ' + (se + so)[-1500:]
-        return res
+    if g.get('dfcc', True) is False:
+        # assume/assert groups: cbmc links its library itself (linking it early makes symex lose constant
+        # propagation through malloc / atomics, measured: recursion through release callbacks is then not resolved)
+        shutil.copy(os.path.join(wd, 'a.gb'), os.path.join(wd, 'a1.gb'))
+    else:
+        cmd = ['goto-instrument', '--add-library', 'a.gb', 'a1.gb']
+        rc, so, se, dt = sh(cmd, 300, cwd=wd)
+        if rc != 0:
+            res['detail'] = 'goto-instrument --add-library failed: ' + (se + so)[-1500:]
+            return res
     # 2b. restrict function-pointer call sites to the targets the unit names for each interface member
     #     (CBMC's default candidate set is every address-taken function of a loosely compatible type, which
     #     sends e.g. udict->mgr->udict_control(...) into the pipe's own control function). The restriction is
@@ -304,7 +309,8 @@ def run_cbmc_stage(repo, unit, g, res, wd, below_variadic, t_all, extra_opts):
     for k in keep:
         cmd += ['--property', k]
     res['cmd_cbmc'] = ' '.join(['cbmc', 'b.gb'] + opts + solver + ['--trace', '--json-ui', '--property <each kept obligation>'])
-    rc, so, se, dt = sh(cmd, g['timeout'], cwd=wd)
+    tmo = min(g['timeout'], int(os.environ.get('VERIF_TIMEOUT_CAP', '100000')))
+    rc, so, se, dt = sh(cmd, tmo, cwd=wd)
     res['seconds']['cbmc'] = round(dt, 2)
     open(os.path.join(wd, 'cbmc.json'), 'w').write(so)
     open(os.path.join(wd, 'cbmc.err'), 'w').write(se)
@@ -360,6 +366,9 @@ def run_cbmc_stage(repo, unit, g, res, wd, below_variadic, t_all, extra_opts):
             # a failing built-in check located inside the specification itself is a defect of the
             # specification (undecided), never a violation of the code
             fn = o['function']
+            if r['status'] == 'FAILURE' and '.unwind.' in o['id']:
+                res['detail'] = 'unwinding bound too small (not a violation): %s %s' % (o['id'], o['description'])
+                res['spec_error'] = True
             if r['status'] == 'FAILURE' and re.match(r'(spec_|pre_|post_|H_|stub_|h_)', fn) and \
                not re.search(r'\.(assertion|postcondition|precondition)\.', o['id']):
                 res['detail'] = 'built-in check failed inside specification code: %s %s' % (o['id'], o['description'])
